@@ -60,6 +60,13 @@ const (
 	NOT
 )
 
+// Go keywords which are not keywords of Folang.
+var goKeywordMap = map[string]bool{
+	"break": true, "case": true, "chan": true, "const": true, "continue": true, "default": true, "defer": true,
+	"fallthrough": true, "for": true, "func": true, "go": true, "goto": true, "interface": true, "map": true,
+	"range": true, "return": true, "select": true, "struct": true, "switch": true, "var": true,
+}
+
 var keywordMap = map[string]TokenType{
 	"let":          LET,
 	"package":      PACKAGE,
@@ -312,6 +319,9 @@ func (tkz *Tokenizer) analyzeCur() {
 		// check whether identifier is keyword
 		if tt, ok := keywordMap[cur.stringVal]; ok {
 			cur.ttype = tt
+		} else if goKeywordMap[cur.stringVal] {
+			// valid identifier of Folang, but keyword of Go. Rename it here so that it is consistent everywhere.
+			cur.stringVal = cur.stringVal + "_"
 		}
 	case isNumber(b):
 		tkz.analyzeCurAsIntImm()
